@@ -27,8 +27,15 @@ pub struct MDBInMemoryShard {
 impl MDBInMemoryShard {
     pub fn add_cas_block(&mut self, cas_block_contents: MDBCASInfo) -> Result<()> {
         let dest_content_v = Arc::new(cas_block_contents);
-        self.cas_content
-            .insert(dest_content_v.metadata.cas_hash, dest_content_v.clone());
+        if let Some(old) = self
+            .cas_content
+            .insert(dest_content_v.metadata.cas_hash, dest_content_v.clone())
+        {
+            // Replacing an existing block; take its contribution to the size back out.
+            self.current_shard_file_size -= old.num_bytes()
+                + (size_of::<u64>() + size_of::<u32>()) as u64
+                + ((size_of::<u64>() + 2 * size_of::<u32>()) * old.chunks.len()) as u64;
+        }
 
         for (i, chunk) in dest_content_v.chunks.iter().enumerate() {
             self.chunk_hash_lookup
@@ -45,7 +52,10 @@ impl MDBInMemoryShard {
         self.current_shard_file_size += file_info.num_bytes();
         self.current_shard_file_size += (size_of::<u64>() + size_of::<u32>()) as u64;
 
-        self.file_content.insert(file_info.metadata.file_hash, file_info);
+        if let Some(old) = self.file_content.insert(file_info.metadata.file_hash, file_info) {
+            // Replacing an existing entry; take its contribution to the size back out.
+            self.current_shard_file_size -= old.num_bytes() + (size_of::<u64>() + size_of::<u32>()) as u64;
+        }
 
         Ok(())
     }
@@ -90,14 +100,15 @@ impl MDBInMemoryShard {
 
             // The cas lookup table
             num_bytes += (size_of::<u64>() + size_of::<u32>()) as u64;
+
+            // The chunk lookup table: one entry is written per chunk occurrence.
+            num_bytes += ((size_of::<u64>() + 2 * size_of::<u32>()) * cas_block_contents.chunks.len()) as u64;
         }
 
         for (_, file_info) in self.file_content.iter() {
             num_bytes += file_info.num_bytes();
             num_bytes += (size_of::<u64>() + size_of::<u32>()) as u64;
         }
-
-        num_bytes += ((size_of::<u64>() + 2 * size_of::<u32>()) * self.chunk_hash_lookup.len()) as u64;
 
         self.current_shard_file_size = num_bytes;
     }
